@@ -104,7 +104,11 @@ Metrics(pre, cfs, cums, rate, excel, npv, irr, vir, moic, payback, capex, opexL,
             [payback |-> RDec(payback, 15), floor |-> RFloor(payback)]),
      Clause(pre \o "na", RDef(payback) /\ AllDef(cums), never => REq(payback, 0),
             [payback |-> RDec(payback, 15)]),
-     Clause(pre \o "na_shown", shown # "" /\ RDef(payback) /\ AllDef(cums),
+     \* a series that does turn from non-positive to positive has a payback period (it is not "N/A")
+     Clause(pre \o "payback_reported", RDef(payback) /\ AllDef(cums) /\ shown # "skip",
+            (\E k \in 2..Len(cums) : RLeq(cums[k - 1], 0) /\ RGt(cums[k], 0)) => ~REq(payback, 0),
+            [payback |-> RDec(payback, 15)]),
+     Clause(pre \o "na_shown", shown \notin {"", "skip"} /\ RDef(payback) /\ AllDef(cums),
             (never => shown = "N/A") /\ (shown = "N/A" <=> REq(payback, 0)),
             [payback |-> RDec(payback, 15), shown |-> shown]) >>)
 
@@ -122,7 +126,7 @@ Finish ==
                  THEN LET X == T.extra
                       IN VJoin(RunningSum(X.cf, X.cum),
                                Metrics("C04_x_", X.cf, X.cum, X.rate, X.excel, X.npv, X.irr, X.vir, X.moic, "0",
-                                       X.capex, RMul(X.opex, T.L), ""))
+                                       X.capex, RMul(X.opex, T.L), "skip"))
                  ELSE V0
          a    == IF "addon" \in DOMAIN T
                  THEN LET A == T.addon
